@@ -1766,3 +1766,80 @@ def rf176(run):
             run.violation(rule, f, 'label table of the binary reader', 'to_lab, executed on the label numbers %s: %s — branch targets of the '
                           'module read back are attached to the wrong label' % (seq, why), line=f.line)
     return n
+
+
+# ---------------------------------------------------------------------------------------------
+# RF191: floating-point values pass the binary reader and writer in their own type
+# ---------------------------------------------------------------------------------------------
+
+def rf191(run):
+    rule = 'RF191'
+    run.rule(rule, 'binary writer and reader (closures of MIR_write_module_with_func / MIR_read_with_func): no conversion between floating-point '
+                   'types is applied to a value on its way (clang cast kind FloatingCast on a non-constant operand).  float → double → float is '
+                   'exact for every number but not for every bit pattern: the widening quiets a signalling NaN (0x7fa00001 reads back as '
+                   '0x7fe00001), and the text form prints `nan` for both')
+    tu = run.tu('mir')
+    reach = set(tu.reachable(['MIR_read_with_func', 'MIR_write_module_with_func', 'MIR_write_with_func']))
+    run.control(rule, 'reader and writer closures found', 'read_token' in reach or 'get_float' in reach)
+    n = tot = 0
+    for fn in sorted(reach):
+        g = tu.funcs.get(fn)
+        if g is None or g.body is None or not g.file.startswith('/repo'):
+            continue
+        for x in g.walk():
+            if x['k'] in F.CASTS and x.get('ck'):
+                tot += 1
+            if x['k'] in F.CASTS and x.get('ck') == 'FloatingCast':
+                o = F.strip(x['c'][0])
+                if o['k'] in ('FloatingLiteral', 'IntegerLiteral') or F.const_value(o) is not None:
+                    continue
+                n += 1
+                run.functions_analysed.add(('mir', fn))
+                run.ob(rule, (fn, x['l']), False, {'site': '%s:%d %s' % (g.relfile(), x['l'], fn), 'conversion': '%s -> %s' % (tu.type(x['c'][0]).s, tu.type(x).s),
+                                                  'operand': F.src(o)[:50]})
+                run.violation(rule, g, 'floating-point value converted on its way', '%s converts `%s` from %s to %s (line %d): a float kept in a wider '
+                              'field and narrowed again is the same number but not the same bits — a signalling NaN comes back quiet, so '
+                              'immediates and data elements are not preserved bit for bit' %
+                              (fn, F.src(o)[:40], tu.type(x['c'][0]).s, tu.type(x).s, x['l']), line=x['l'])
+    run.control(rule, 'cast kinds available from the extractor', tot >= 100)
+    run.ob(rule, ('closures',), n == 0, {'functions': len(reach), 'floating-point conversions of values': n})
+    return 1
+
+
+# ---------------------------------------------------------------------------------------------
+# RF192: the hard register printed for a variable is that variable's
+# ---------------------------------------------------------------------------------------------
+
+def rf192(run):
+    rule = 'RF192'
+    run.rule(rule, 'textual writer, output_vars: the `:hardreg` suffix of a `local` / `global` declaration comes from the register found *by the '
+                   'variable\'s name* (MIR_reg (ctx, var.name, func)).  Register numbers follow the order of declaration across both '
+                   'variable lists (a global created at its first use sits between the locals), so a number computed from the position in '
+                   'one list names another variable\'s register and the text no longer scans')
+    tu = run.tu('mir')
+    f = tu.func('output_vars')
+    run.functions_analysed.add(('mir', f.name))
+    calls = [x for x in f.walk() if x['k'] == 'CallExpr' and x.get('callee') == 'MIR_reg_hard_reg_name']
+    if not calls:
+        raise F.AnalysisBroken('output_vars: no call of MIR_reg_hard_reg_name')
+    inits = {}
+    for x in f.walk():
+        if x['k'] == 'DeclStmt':
+            for d in x.get('decls', []):
+                if d.get('init') is not None:
+                    inits[d['n']] = d['init']
+        if x['k'] == 'BinaryOperator' and x['op'] == '=' and F.strip(x['c'][0])['k'] == 'DeclRefExpr':
+            inits[F.strip(x['c'][0])['n']] = x['c'][1]
+    n = 0
+    for c in calls:
+        a = F.strip(F.call_args(c)[1])
+        if a['k'] == 'DeclRefExpr' and a['n'] in inits:
+            a = F.strip(inits[a['n']])
+        ok = a['k'] == 'CallExpr' and a.get('callee') == 'MIR_reg' and 'name' in F.src(F.call_args(a)[1])
+        n += 1
+        run.ob(rule, (c['l'],), ok, {'site': '%s:%d' % (f.relfile(), c['l']), 'register looked up as': F.src(a)[:60]})
+        if not ok:
+            run.violation(rule, f, 'hard register of another variable', 'output_vars takes the hard-register name of `%s` (line %d), not of the register '
+                          'found by the variable\'s name: with a global declared between locals the suffix lands on the wrong declaration '
+                          '(`local i64:a, i64:b:rdx` / `global i64:g`) and MIR_scan_string rejects the text' % (F.src(a)[:40], c['l']), line=c['l'])
+    return n
